@@ -229,7 +229,7 @@ VH_CMD(cmpct)
 
         // ---- the encoding ----
         RawCmpct raw;
-        raw.header = block.GetBlockHeader();
+        raw.header = static_cast<const CBlockHeader&>(block);
         raw.nonce = rng.next();
         const CBlockHeaderAndShortTxIDs ref_enc{block, raw.nonce};
         std::vector<bool> prefilled(ntx, false);
